@@ -443,7 +443,12 @@ def gen_synth_part(rng, lf_any_leader=False):
         c = rng.choice(["TF", "SA", "LF"])
         b = {"rank": klev[-1]}
         if c == "LF":
-            b["leader"] = rng.choice(["A", "B"]) if lf_any_leader else "A"
+            b["leader"] = "A"
+            pos = lo.index(klev[-1])
+            below = {t_: len([x for x in lo[pos + 1:] if x.rstrip("0123456789") in decl[t_]]) for t_ in ("A", "B")}
+            if lf_any_leader and below["A"] == below["B"] and below["A"] > 0:
+                # (same depth below the rank: see gen_synth)
+                b["leader"] = rng.choice(["A", "B"])
         bl.append({"component": c, "bindings": [b]})
     if rng.random() < 0.5:
         # hardware merger bound to a tensor that is partitioned before the merge: init-ranks name partition levels
